@@ -229,7 +229,7 @@ func setDefs(s *Spec, defs []DefKV) {
 func Instantiate(g *G, i int) *CatEdit {
 	base := g.Spec()
 	nLeaf := len(leafCatalogue)
-	paramSites := []string{"param.query", "param.header", "param.formData"}
+	paramSites := []string{"param.query", "param.header", "param.formData", "param.override"}
 	total := nLeaf*len(paramSites) + nLeaf /*items*/ + nLeaf*len(bodySites) + len(structKinds) + len(respKinds)
 	i = i % total
 	switch {
@@ -237,11 +237,19 @@ func Instantiate(g *G, i int) *CatEdit {
 		le := leafCatalogue[i%nLeaf]
 		site := paramSites[i/nLeaf]
 		in := strings.TrimPrefix(site, "param.")
+		override := in == "override"
+		if override {
+			in = "query"
+		}
 		a := base.Clone()
 		pi, op := pickOp(g, a, in == "formData")
 		mk := func(s *Schema) *Param { return &Param{Name: "w", In: in, Chain: schemaToChain(s)} }
 		pa, pb := mk(le.A()), mk(le.B())
 		op.Params = append(filterParams(op.Params, "w"), pa)
+		if override {
+			// the same parameter is also declared for the whole path; the operation-level declaration overrides it
+			pi.Params = append(filterParams(pi.Params, "w"), mk(le.A()))
+		}
 		b := a.Clone()
 		opb := findOp(b, pi.URL, op.Method)
 		opb.Params = append(filterParams(opb.Params, "w"), pb)
@@ -286,7 +294,7 @@ func Instantiate(g *G, i int) *CatEdit {
 
 func CatalogueSize() int {
 	nLeaf := len(leafCatalogue)
-	return nLeaf*3 + nLeaf + nLeaf*len(bodySites) + len(structKinds) + len(respKinds)
+	return nLeaf*4 + nLeaf + nLeaf*len(bodySites) + len(structKinds) + len(respKinds)
 }
 
 func filterParams(ps []*Param, name string) []*Param {
